@@ -87,7 +87,8 @@ type input struct {
 	Groups   int        `json:"groups"`
 	Delays   [][]int    `json:"delays"` // per backend: microseconds per SendEvent call, cyclic
 	Compress string     `json:"compress"`
-	Cancel   int        `json:"cancel"` // > 0: cancel the dispatch contexts after that many microseconds
+	TapDelay []int      `json:"tap_delay"` // microseconds the pass-through handler takes per event, cyclic
+	Cancel   int        `json:"cancel"`    // > 0: cancel the dispatch contexts after that many microseconds
 }
 
 const unknownID = 2000000
@@ -224,6 +225,8 @@ type tap struct {
 	next    gostatsd.PipelineHandler
 	log     *tlog
 	entered int64
+	delays  []int
+	n       int64
 }
 
 func (t *tap) EstimatedTags() int { return t.next.EstimatedTags() }
@@ -244,6 +247,12 @@ func (t *tap) DispatchEvent(ctx context.Context, e *gostatsd.Event) {
 		}
 		if !more {
 			break
+		}
+	}
+	if len(t.delays) > 0 { // a slow stage between the cloud handler and the backend handler
+		k := atomic.AddInt64(&t.n, 1)
+		if d := t.delays[int(k)%len(t.delays)]; d > 0 {
+			time.Sleep(time.Duration(d) * time.Microsecond)
 		}
 	}
 	t.log.add(obs{K: "enter", E: id, Rel: rel})
@@ -379,7 +388,7 @@ func runCase(in input) hlib.Case {
 		tailStatic = in.StaticS
 	}
 	tailTags := statsd.NewTagHandler(bh, append(gostatsd.Tags{}, tailStatic...), nil)
-	tp := &tap{next: tailTags, log: log}
+	tp := &tap{next: tailTags, log: log, delays: in.TapDelay}
 
 	var head gostatsd.PipelineHandler = tp
 	var srv *httptest.Server
@@ -453,7 +462,7 @@ func runCase(in input) hlib.Case {
 				}
 			}(g)
 		}
-		if !waitTimeout(swg.Wait, 20*time.Second) {
+		if !waitTimeout(swg.Wait, 8*time.Second) {
 			mon("posting the messages did not finish within 20s")
 		}
 	} else {
@@ -528,7 +537,7 @@ func runCase(in input) hlib.Case {
 				}
 			}(g)
 		}
-		if !waitTimeout(func() { swg.Wait(); done.Wait() }, 20*time.Second) {
+		if !waitTimeout(func() { swg.Wait(); done.Wait() }, 8*time.Second) {
 			mon("the parsers did not take / finish every datagram within 20s")
 		}
 	}
@@ -538,7 +547,7 @@ func runCase(in input) hlib.Case {
 	enteredAtWait := int64(-1)
 	if in.Mode == "forwarded" {
 		// first the forwarder: every accepted event must have been posted (entered the ingesting server)
-		if !waitTimeout(head.WaitForEvents, 20*time.Second) {
+		if !waitTimeout(head.WaitForEvents, 8*time.Second) {
 			mon("the forwarder's WaitForEvents did not return within 20s")
 		}
 		enteredAtWait = atomic.LoadInt64(&tp.entered)
@@ -546,7 +555,7 @@ func runCase(in input) hlib.Case {
 			mon("the forwarder's WaitForEvents returned when %d of %d accepted events had reached the ingesting server", enteredAtWait, nAccepted)
 		}
 		log.add(obs{K: "waitcall"})
-		ok := waitTimeout(tp.WaitForEvents, 20*time.Second)
+		ok := waitTimeout(tp.WaitForEvents, 8*time.Second)
 		retsAtWait = atomic.LoadInt64(&sh.rets)
 		log.add(obs{K: "waitret"})
 		if !ok {
@@ -558,7 +567,7 @@ func runCase(in input) hlib.Case {
 			h = tp
 		}
 		log.add(obs{K: "waitcall"})
-		ok := waitTimeout(h.WaitForEvents, 20*time.Second)
+		ok := waitTimeout(h.WaitForEvents, 8*time.Second)
 		retsAtWait = atomic.LoadInt64(&sh.rets)
 		log.add(obs{K: "waitret"})
 		if !ok {
@@ -801,6 +810,9 @@ func genCase(r *hlib.Rand, k int) input {
 		if k%10 == 5 {
 			in.Stream = "odd"
 		}
+		if k%20 == 11 {
+			in.Stream = "cancel"
+		}
 	}
 	in.NB = hlib.Pick(r, []int{0, 1, 1, 2, 2, 2, 3, 3})
 	in.Cap = r.Range(1, 4)
@@ -809,6 +821,22 @@ func genCase(r *hlib.Rand, k int) input {
 	in.StaticS = pickTags(r, 0, 3)
 	in.Delays = genDelays(r, in.NB)
 	in.Compress = hlib.Pick(r, []string{"", "zlib", "lz4", "none"})
+	if r.Chance(1, 2) {
+		for i, n := 0, r.Range(1, 3); i < n; i++ {
+			in.TapDelay = append(in.TapDelay, hlib.Pick(r, []int{0, 100, 400, 800}))
+		}
+	}
+	if in.Stream == "cancel" {
+		// shutdown in the middle of dispatching: slow backends, few tokens, no lookups (a cancelled
+		// hand-off to the cloud handler's goroutine drops the event by design)
+		in.Cloud = false
+		in.NB, in.Cap = r.Range(2, 3), r.Range(1, 2)
+		in.Delays = make([][]int, in.NB)
+		for b := range in.Delays {
+			in.Delays[b] = []int{hlib.Pick(r, []int{200, 500, 900})}
+		}
+		in.Cancel = hlib.Pick(r, []int{50, 200, 600, 1500})
+	}
 	in.Senders = genSenders(r, in.Cloud)
 	var extra []string
 	extra = append(extra, in.Static...)
